@@ -14,7 +14,10 @@
    Rule pair: (1) is Stream.l_get_frame / l_get_sentinel unchanged; (2) is new and
    is enabled exactly when (1) is not.  Three consumers (`cmode`):
 
-     Blocking   no time-out rule at all: Stream.lstep (the code of /repo as it is)
+     Blocking   no time-out rule at all: Stream.lstep.  This is the ONLY consumer /repo has
+                (predictors.py: `self.pipeline.frame_buffer.get()`, no timed get, no is_alive):
+                everything said about Polling / GiveUp below is about harness-side wrappers of
+                get() and keeps the checker able to judge seeded variants of the consumer.
      Polling    `except Empty: continue` — retry until something (finally the marker)
                 arrives.  The time-out is a stutter step (the state does not change).
      GiveUp     `except Empty: if not reader.is_alive(): frame = {"image": None}` —
@@ -129,7 +132,7 @@ Inductive inev_p (c : cfg) (m : cmode) (P : xst -> Prop) : xst -> Prop :=
 (* executable trace checker for the widened system                            *)
 
 Definition is_producer_event (e : event) : bool :=
-  match e with EvReadOk _ | EvReadFail _ | EvPut _ | EvPutSent => true | _ => false end.
+  match e with EvReadOk _ | EvReadFail _ | EvPut _ _ | EvPutSent => true | _ => false end.
 
 Definition at_empty_get (s : st) : bool :=
   match cc s, q s with CCollect (S _) _, [] => true | _, _ => false end.
@@ -186,39 +189,29 @@ Definition xaccepts (c : cfg) (m : cmode) (tr : list xevent) : bool :=
    VideoReader.from_filename(filename, queue_maxsize, start_idx=None, end_idx=None):
        if start_idx is None: start_idx = 0
        if end_idx is None:   end_idx = video.shape[0]
-   (None and 0 are different requests: end_idx = 0 is the empty range) *)
-Record vrequest := mkVReq {
+   (None and 0 are different requests: end_idx = 0 is the empty range).
+
+   The length of the video matters also when end_idx is given: `run()` iterates over
+   range(start_idx, end_idx) whatever the length, and `video[idx]` with idx >= video.shape[0]
+   raises IndexError ("Frame index N out of range", sleap-io; replayed on a real sio.Video by the
+   harness every run).  That exception is a read failure like any other: it is caught by
+   `except Exception`, the frames before it have been delivered, the marker is put.  So a request
+   whose end exceeds the video has a DERIVED fault at the first index of the range that does not
+   exist, max start (vr_frames r) (review round 4, finding 1; before, the model ignored the length
+   once end_idx was given).  `vr_fault` is a read failure injected by the harness (a frame that
+   exists but cannot be decoded); one before the start of the range is never met.
+   Arguments are natural numbers: negative start_idx / end_idx (Python indexing from the end,
+   backend dependent in sleap-io) are outside the model and outside the generators. *)
+Record vrequest := mkVReqS {
   vr_frames : nat;            (* video.shape[0] *)
   vr_start : option nat;
   vr_end : option nat;
   vr_cap : nat;               (* queue_maxsize *)
   vr_batch : nat;
-  vr_fault : option nat
+  vr_fault : option nat;
+  vr_src : nat -> payload     (* size of frame i (a VideoReader always reports video_idx 0) *)
 }.
-
-Definition video_cfg (r : vrequest) : cfg :=
-  mkCfg (match vr_start r with Some s => s | None => 0 end)
-        (match vr_end r with Some e => e | None => vr_frames r end)
-        (vr_cap r) (vr_batch r) (vr_fault r).
-
-(* total_len() = end_idx - start_idx, a Python int: negative for an inverted range *)
-Definition video_total_len (r : vrequest) : nat * nat :=     (* (positive part, negative part) *)
-  let c := video_cfg r in (end_ c - start_ c, start_ c - end_ c).
-
-(* LabelsReader(labels, frame_buffer, instances_key) / from_filename: range(len(labels)).
-   With instances_key the reader also stacks the non-empty instances of the frame:
-   `np.stack([])` raises for a labelled frame that has no (non-empty) instance, and the
-   exception is handled like a read failure (finding F130; `lr_fixed` = the repaired reader,
-   which pads such a frame with NaN rows instead). *)
-Record lrequest := mkLReq {
-  lr_frames : nat;                 (* len(labels) *)
-  lr_cap : nat;
-  lr_batch : nat;
-  lr_fault : option nat;           (* position whose labels[idx] / lf.image raises *)
-  lr_instances_key : bool;
-  lr_first_bare : option nat;      (* first position whose frame has no non-empty instance *)
-  lr_fixed : bool
-}.
+Notation mkVReq a b c d e f := (mkVReqS a b c d e f (fun _ => pl0)).
 
 Definition opt_min (a b : option nat) : option nat :=
   match a, b with
@@ -227,15 +220,59 @@ Definition opt_min (a b : option nat) : option nat :=
   | None, y => y
   end.
 
-(* what the code does: a bare frame acts as a fault when instances are requested (unless repaired) *)
+Definition vr_start_ (r : vrequest) : nat := match vr_start r with Some s => s | None => 0 end.
+Definition vr_end_ (r : vrequest) : nat := match vr_end r with Some e => e | None => vr_frames r end.
+
+(* an injected failure counts only from the start of the range on *)
+Definition in_range_fault (s : nat) (f : option nat) : option nat :=
+  match f with Some x => if s <=? x then Some x else None | None => None end.
+
+(* the range runs past the end of the video: the first index of the range that does not exist *)
+Definition overrun_fault (r : vrequest) : option nat :=
+  if vr_frames r <? vr_end_ r then Some (Nat.max (vr_start_ r) (vr_frames r)) else None.
+
+(* the first index at which video[idx] raises *)
+Definition video_fault (r : vrequest) : option nat :=
+  opt_min (in_range_fault (vr_start_ r) (vr_fault r)) (overrun_fault r).
+
+Definition video_cfg (r : vrequest) : cfg :=
+  mkCfgS (vr_start_ r) (vr_end_ r) (vr_cap r) (vr_batch r) (video_fault r) (vr_src r).
+
+(* total_len() = end_idx - start_idx, a Python int: negative for an inverted range.  It does not look
+   at the video either: for a range that runs past the end it OVER-reports (c13_video_total_len_overrun) *)
+Definition video_total_len (r : vrequest) : nat * nat :=     (* (positive part, negative part) *)
+  let c := video_cfg r in (end_ c - start_ c, start_ c - end_ c).
+
+(* LabelsReader(labels, frame_buffer, instances_key) / from_filename: range(len(labels)).
+   With instances_key the reader also stacks the non-empty instances of the frame:
+   in the PINNED tree (before fix 061a599) `np.stack([])` raises for a labelled frame that has no
+   (non-empty) instance, and the exception is handled like a read failure (finding F130, now
+   `fixed:` in known_findings.txt).  The CURRENT tree has the repaired reader, which pads such a
+   frame with NaN rows: `lr_fixed = true` (the harness finds out which one it runs against by
+   replaying the witness; `lr_fixed = false` documents the historic defect and lets the check
+   report a regression). *)
+Record lrequest := mkLReqS {
+  lr_frames : nat;                 (* len(labels) *)
+  lr_cap : nat;
+  lr_batch : nat;
+  lr_fault : option nat;           (* position whose labels[idx] / lf.image raises *)
+  lr_instances_key : bool;
+  lr_first_bare : option nat;      (* first position whose frame has no non-empty instance *)
+  lr_fixed : bool;
+  lr_src : nat -> payload          (* size of the image of the labelled frame at position i, index of its video *)
+}.
+Notation mkLReq a b c d e f g := (mkLReqS a b c d e f g (fun _ => pl0)).
+
+(* what the code does: in the pinned tree (lr_fixed = false) a bare frame acts as a fault when instances
+   are requested; in the current tree (lr_fixed = true) it does not *)
 Definition labels_cfg (r : lrequest) : cfg :=
-  mkCfg 0 (lr_frames r) (lr_cap r) (lr_batch r)
-        (if lr_instances_key r && negb (lr_fixed r)
-         then opt_min (lr_fault r) (lr_first_bare r) else lr_fault r).
+  mkCfgS 0 (lr_frames r) (lr_cap r) (lr_batch r)
+         (if lr_instances_key r && negb (lr_fixed r)
+          then opt_min (lr_fault r) (lr_first_bare r) else lr_fault r) (lr_src r).
 
 (* what the property asks: only read failures end the stream early *)
 Definition labels_spec_cfg (r : lrequest) : cfg :=
-  mkCfg 0 (lr_frames r) (lr_cap r) (lr_batch r) (lr_fault r).
+  mkCfgS 0 (lr_frames r) (lr_cap r) (lr_batch r) (lr_fault r) (lr_src r).
 
 (* the selector of finding F130: instances requested, and a bare frame inside the range
    strictly before the first read failure *)
@@ -280,6 +317,9 @@ Record req_verdict := mkReqV {
   rq_total_len : nat * nat;
   rq_selected : bool             (* falls under the selector of F130 *)
 }.
+
+(* a source given as a table (the harness lists what its fake video / labels hold) *)
+Definition tbl (l : list payload) : nat -> payload := fun i => nth i l pl0.
 
 Inductive request := ReqVideo (r : vrequest) | ReqLabels (r : lrequest).
 
